@@ -231,11 +231,11 @@ func hPool() []hCons {
 	p = append(p, hStart("a", []hAttr{hAttrPool[1], hAttrPool[2], hAttrPool[0]}, []string{" ", "\n", "  "}, "", ">"), hStart("a", []hAttr{hAttrPool[3], hAttrPool[5]}, nil, " ", ">"),
 		hStart("a", []hAttr{hAttrPool[1], hAttrPool[1]}, nil, "", ">"))
 	// svg and math: one token per subtree
-	for _, s := range []string{"<svg>text</svg>", "<svg width=1><path d=\"M0 0\"/></svg>", "<SVG></SVG>", "<svg><x a=\"</svg>\"></x></svg>", "<svg></svg >", "<svg/>", "<svg width=1 />", "<svg><svg></svg></svg>", "<svg><svg/></svg>", "<svg><g><SVG x=1><rect/></svg ></g><svg/></svg>", "<svg><svgx></svg>", "<svg><a></a><!-- c --></svg>", "<svg a='\"'></svg>"} {
+	for _, s := range []string{"<svg>text</svg>", "<svg width=1><path d=\"M0 0\"/></svg>", "<SVG></SVG>", "<svg><x a=\"</svg>\"></x></svg>", "<svg></svg >", "<svg/>", "<svg width=1 />", "<svg><svg></svg></svg>", "<svg><svg/></svg>", "<svg><g><SVG x=1><rect/></svg ></g><svg/></svg>", "<svg><svgx></svg>", "<svg><svg:rect></svg:rect><b/></svg>", "<svg><a href=\"x\"/>t</svg-x></svg>", "<svg></svgs></svg>", "<svg><a></a><!-- c --></svg>", "<svg a='\"'></svg>"} {
 		low := "<svg" + s[4:]
 		p = append(p, hOne(html.SVGToken, s, low, ""))
 	}
-	for _, s := range []string{"<math><mi>x</mi></math>", "<MATH></MATH>", "<math a=\"</math>\"></math>", "<math/>", "<math><math/><math></math></math>"} {
+	for _, s := range []string{"<math><mi>x</mi></math>", "<MATH></MATH>", "<math a=\"</math>\"></math>", "<math/>", "<math><math/><math></math></math>", "<math><m:x></math:x></math>"} {
 		low := "<math" + s[5:]
 		p = append(p, hOne(html.MathToken, s, low, ""))
 	}
